@@ -171,7 +171,11 @@ def r13_2(U, rep):
       if len(a) == 4 and a[0] == ('f', params[1]) and a[1] == ('f', params[2]) and idx == pred.C(comp) \
           and attr_src(a[2], 'pos') and attr_src(a[3], 'quat'):
         ok = True
-    extra = [a for a in pc if 'fromto' not in a]
+    # a write may be skipped only when the composed value provably equals the original one
+    q_ne = '∃[(1,0,0,0) != %s]' % params[2]
+    p_ne = '∃[%s ∉ {0}]' % params[1]
+    harmless = {q_ne} if key == 'quat' else {'(%s ∨ %s)' % tuple(sorted([q_ne, p_ne]))}
+    extra = [a for a in pc if 'fromto' not in a and a not in harmless]
     rep.check(not extra, 'R13.2', '_offset writes %s on every non-fromto path' % key,
               'the composed `%s` is written back only under the extra condition {%s}: a parent pose changes both the '
               'position and the orientation of its children, so both must always be written' % (key, '; '.join(sorted(extra))),
